@@ -146,6 +146,21 @@ def run(m: Model, r: Report, tier: str) -> None:
     # ---------------------------------------------------------------- R9
     wr = m.require_function(f"{DOIP}.DoIPConnection.write_request_raw")
     tr.ack_timeout_handler(m, r, "R9", wr, "self._read_ack")
+    wsrc = [ast.unparse(s_) for s_ in ast.walk(wr.node) if isinstance(s_, (ast.Expr, ast.Assign, ast.AugAssign))]
+    iw = next((i for i, t in enumerate(wsrc) if t == "self.writer.write(buf)"), None)
+    idr = next((i for i, t in enumerate(wsrc) if t == "await self.writer.drain()"), None)
+    r.check(iw is not None and idr is not None and iw < idr and "buf += hdr.pack()" in wsrc and "buf += payload.pack()" in wsrc, "R9", f"{wr.qualname}#sends-frame",
+            "the frame (header + payload) must be written and drained before waiting for the acknowledgement", loc=wr.loc)
+    for q, callee in ((f"{DOIP}.DoIPConnection.write_diag_request", "await self.write_request_raw(hdr, payload)"),
+                      (f"{DOIP}.DoIPConnection.write_routing_activation_request", "await self.write_request_raw(hdr, payload)"),
+                      (f"{DOIP}.DoIPTransport.write", "await asyncio.wait_for(self._conn.write_diag_request(data), timeout)"),
+                      (f"{DOIP}.DoIPTransport._connect", "await conn.write_routing_activation_request(activation_type)")):
+        fx = m.require_function(q)
+        r.check(any(ast.unparse(s_).startswith(callee) for s_ in ast.walk(fx.node) if isinstance(s_, ast.Expr)), "R9", f"{q}#delegates",
+                f"must await `{callee}`", loc=fx.loc)
+    arms2 = {ast.unparse(c.pattern): c for x in ast.walk(wr.node) if isinstance(x, ast.Match) for c in x.cases}
+    r.check("RoutingActivationRequest()" in arms2 and "self._read_routing_activation_response()" in ast.unparse(arms2.get("RoutingActivationRequest()") or ast.Pass()), "R5",
+            f"{wr.qualname}#activation-waits-for-response", "a routing activation request must wait for the routing activation response", loc=wr.loc)
     mt = [n for n in ast.walk(wr.node) if isinstance(n, ast.Match)]
     arms = [ast.unparse(c.pattern) for x in mt for c in x.cases]
     r.check("DiagnosticMessage()" in arms, "R9", f"{wr.qualname}#ack-arm", f"match arms {arms}: a diagnostic message must wait for its acknowledgement", loc=wr.loc)
@@ -177,6 +192,7 @@ def run(m: Model, r: Report, tier: str) -> None:
     ok11 = len(branches) == 1 and any("self.write_alive_check_response()" in ast.unparse(s) for s in branches[0].body) and \
         isinstance(branches[0].body[-1], ast.Continue)
     r.check(ok11, "R11", f"{rw.qualname}#alive-branch", "alive check requests must be answered in the reader task and not queued", loc=rw.loc)
+    tr.reader_loop_total(r, "R11", rw, ("self._read_queue.put(", "self._diagnostic_message_queue.put(", "self.write_alive_check_response("))
     ac = m.require_function(f"{DOIP}.DoIPConnection.write_alive_check_response")
     r.check(any(isinstance(n, ast.Call) and ast.unparse(n.func) == "AliveCheckResponse" and
                 any(ast.unparse(k.value) == "self.src_addr" for k in n.keywords) for n in ast.walk(ac.node)), "R11",
